@@ -28,7 +28,7 @@ var validRunes = []rune{'a', 'Z', '0', ' ', '\n', '\t', 0, 0xe9, 0x6f22, 0x1f469
 // AnyItem draws an item of any kind; depth bounds cell nesting.
 func AnyItem(tokens []string, depth int) *rapid.Generator[Item] {
 	return rapid.Custom(func(t *rapid.T) Item {
-		kinds := []string{"nil", "str", "str", "str", "rune", "int", "i32n", "u8", "tstr", "f64", "f32", "i64", "u64", "i8", "u16", "c64", "bool", "ints", "bytes", "map", "emap", "sx", "sn", "sns", "psx", "if", "if", "if", "ifp", "tm", "jm", "fmtr", "nstr", "stderr", "fielder", "anonfielder", "nilstr", "nilerr"}
+		kinds := []string{"nil", "str", "str", "str", "rune", "int", "i32n", "u8", "tstr", "pval", "omit", "omit", "f64", "f32", "i64", "u64", "i8", "u16", "c64", "bool", "ints", "bytes", "map", "emap", "sx", "sn", "sns", "psx", "if", "if", "if", "ifp", "tm", "jm", "fmtr", "nstr", "stderr", "fielder", "anonfielder", "nilstr", "nilerr"}
 		if depth > 0 {
 			kinds = append(kinds, "cell", "cell", "pcell")
 		}
@@ -54,9 +54,14 @@ func AnyItem(tokens []string, depth int) *rapid.Generator[Item] {
 			it.N = int64(rapid.IntRange(-100, 100).Draw(t, "n"))
 		case "i64", "u64":
 			it.N = rapid.SampledFrom([]int64{0, 1, -1, 42, 255, 1 << 31, 1<<53 + 1, math.MaxInt64, math.MinInt64, -1 << 40}).Draw(t, "n64")
+		case "omit":
+			it.N = int64(rapid.SampledFrom([]int{0, 0, 0, 3, -1}).Draw(t, "soft"))
+			if rapid.IntRange(0, 2).Draw(t, "note?") == 0 {
+				it.S = str("s")
+			}
 		case "i8", "u16":
 			it.N = int64(rapid.IntRange(-128, 127).Draw(t, "n"))
-		case "map", "sx", "sn", "psx":
+		case "map", "sx", "sn", "psx", "pval":
 			it.S = str("s")
 			it.N = int64(rapid.IntRange(-9, 9).Draw(t, "n"))
 		case "if":
@@ -219,7 +224,7 @@ func ScriptGen(o ScriptOpts) *rapid.Generator[Script] {
 				rows = append(rows, rk{attached: true})
 			case "prop":
 				// the highest column of the moment (-1), the defaults column (0) and the first few
-				op.P = &PropOp{Col: rapid.SampledFrom([]int{0, 0, -1, -1, 1, 2, 3}).Draw(t, "pcol"), Key: rapid.SampledFrom(propKeys).Draw(t, "pkey"), Val: rapid.IntRange(0, 3).Draw(t, "pval")}
+				op.P = &PropOp{Col: rapid.SampledFrom([]int{0, 0, -1, -1, 1, 2, 3, 0, -1, 1, OwnerTable, OwnerRow, OwnerCell}).Draw(t, "pcol"), Key: rapid.SampledFrom(propKeys).Draw(t, "pkey"), Val: rapid.IntRange(0, 3).Draw(t, "pval")}
 			case "rowerr":
 				if len(rows) == 0 {
 					continue
